@@ -6,6 +6,7 @@ CONSTANTS
   ChunkStride = 1
   Walk = FALSE
   Pow2 = TRUE
+  Pos = TRUE
   Kinds = {"half", "float", "double", "x86_fp80", "fp128", "ppc_fp128"}
 INVARIANTS RoundTrip DoubleFormOK Inexact ReadIdem ShortRule Preserved EmittedExtra
 CHECK_DEADLOCK FALSE
